@@ -457,6 +457,14 @@ def cstring_decode(fn: ast.FunctionDef, data: str):
         if isinstance(st, ast.AnnAssign) and st.value is not None and isinstance(st.target, ast.Name):
             env[st.target.id] = subst(st.value, env)
             continue
+        # if 0 in x: x = x[:x.index(0)]      (the conditional expression written as a statement)
+        if isinstance(st, ast.If) and not st.orelse and len(st.body) == 1 and isinstance(st.body[0], ast.Assign) \
+                and len(st.body[0].targets) == 1 and isinstance(st.body[0].targets[0], ast.Name):
+            nm = st.body[0].targets[0].id
+            old = env.get(nm, ast.Name(id=nm, ctx=ast.Load()))
+            env[nm] = ast.IfExp(test=subst(st.test, env), body=subst(st.body[0].value, env), orelse=copy.deepcopy(old))
+            ast.fix_missing_locations(ast.copy_location(env[nm], st))
+            continue
         break
     if local_decode is not None:
         return local_decode[0], local_decode[1], True
